@@ -271,6 +271,38 @@ class Interp(object):
             return True
         return out if rec(0, state) else None
 
+    def _comprehension_truths(self, comp, state, trace):
+        '''truth of the element expression of a comprehension for every abstract element (bound in a state of its own); None when
+        an iterable is not understood'''
+        out = []
+
+        def rec(k, st_):
+            if k == len(comp.generators):
+                out.append(bool(self.cond(comp.elt, st_, trace)))
+                return True
+            g = comp.generators[k]
+            it = self.subst(g.iter, st_) if self.symbolic else g.iter
+            elems = None
+            for cand in ([g.iter] if it is g.iter else [it, g.iter]):
+                for pattern, fn in self.iters:
+                    env = pm.match(pattern, cand)
+                    if env is not None:
+                        elems = fn(env, st_, trace)
+                        if elems is not None:
+                            break
+                if elems is not None:
+                    break
+            if elems is None:
+                return False
+            for el in elems:
+                st2 = dict(st_, senv=dict(st_.get('senv', {})), env=dict(st_.get('env', {})))
+                self.bind(g.target, el, st2)
+                if all(self.cond(c, st2, trace) for c in g.ifs):
+                    if not rec(k + 1, st2):
+                        return False
+            return True
+        return out if rec(0, state) else None
+
     def kill(self, names, state):
         senv = state.get('senv')
         if senv:
@@ -356,6 +388,12 @@ class Interp(object):
                     return False
                 left = right
             return True
+        if isinstance(node, ast.Call) and isinstance(node.func, ast.Name) and node.func.id in ('any', 'all') and len(node.args) == 1 and \
+                not node.keywords and isinstance(node.args[0], (ast.GeneratorExp, ast.ListComp)):
+            # any(c for x in X) / all(..): the element condition under every abstract element of the iterable
+            vals = self._comprehension_truths(node.args[0], state, trace)
+            if vals is not None:
+                return any(vals) if node.func.id == 'any' else all(vals)
         if isinstance(node, ast.Name) and node.id in state.get('bvars', {}):
             return state['bvars'][node.id]
         if self.symbolic:
